@@ -55,6 +55,10 @@ func (sd SignData) RecoverNodeID(hash common.Hash) ([]byte, error) {
 		log.Warn("recover fail", "err", err)
 		return nil, ErrInvalidSig
 	}
+	// a deputy has only one valid confirm for a block
+	if !crypto.ValidateSignature(sd[:]) {
+		return nil, ErrInvalidSig
+	}
 	return pubKey[1:], nil
 }
 
@@ -118,6 +122,9 @@ func (h *Header) SignerNodeID() ([]byte, error) {
 	pubKey, err := crypto.Ecrecover(hash[:], h.SignData)
 	if err != nil {
 		return nil, err
+	}
+	if !crypto.ValidateSignature(h.SignData) {
+		return nil, ErrInvalidSig
 	}
 	nodeID := pubKey[1:]
 
